@@ -150,7 +150,7 @@ InRefOrP(st) == \E i \in 1..Len(st.stack) :
 NonWordAtoms == {"SP", "NL", "=", "'", "''", "'''", "*", "#", ";", ":", "----", "!", "|", "{", "}",
                  "+", "-", "=b", "nowiki", "url", "magicT", "magicA", "magicL", "magicE", "magicN", "magicF",
                  "<span>", "</span>", "<div>", "</div>", "<br>", "</br>", "<ref>", "</ref>", "<ul>", "</ul>",
-                 "<li>", "</li>", "<pre>", "</pre>", "<foo>", "</foo>"}
+                 "<li>", "</li>", "<pre>", "</pre>", "<foo>", "</foo>", "<span/>", "<span class=\"c\">", "magicTN"}
 IsWordAtom(a) == a \notin NonWordAtoms
 RECURSIVE AppendAtoms(_, _, _)
 AppendAtoms(f, atoms, i) == IF i > Len(atoms) THEN f ELSE AppendAtoms(AppendText(f, atoms[i]), atoms, i + 1)
@@ -313,19 +313,25 @@ FormatFn(st0, kind, atoms) ==
             IF r.saw /\ ~r.st.stuck THEN Push(r.st, Other(kind), <<>>) ELSE r.st
 
 (* ------------------------------------------------------------- tables ---- *)
-\* parse_attrs on a plain string: every word-like atom becomes a key
-RECURSIVE KeysOf(_, _, _)
-KeyOfAtom(a) == IF a = "a=b" THEN "a" ELSE a
-KeysOf(s, i, acc) ==
-  IF i > Len(s) THEN acc
-  ELSE IF s[i] \in {"w", "a=b"} /\ ~(\E j \in 1..Len(acc) : acc[j] = KeyOfAtom(s[i]))
-       THEN KeysOf(s, i + 1, Append(acc, KeyOfAtom(s[i])))
-       ELSE KeysOf(s, i + 1, acc)
+\* parse_attrs on a plain string: every blank-separated run of name characters is a key
+\* (a run ends at "=": the rest of the run is the value).  Keys are built by joining atoms.
+NameAtoms == {"w", "{", "}", "|", "!", "+", "-", "*", "#", ";", ":", "----"}
+AddKey(acc, key) == IF key = "" \/ (\E j \in 1..Len(acc) : acc[j] = key) THEN acc ELSE Append(acc, key)
+\* cur = key being collected; val = inside a value (skip to the next blank)
+RECURSIVE KeysOf(_, _, _, _, _)
+KeysOf(s, i, acc, cur, val) ==
+  IF i > Len(s) THEN AddKey(acc, cur)
+  ELSE LET a == s[i] IN
+       IF a \in {"SP", "NL"} THEN KeysOf(s, i + 1, AddKey(acc, cur), "", FALSE)
+       ELSE IF val THEN KeysOf(s, i + 1, acc, cur, TRUE)
+       ELSE IF a = "a=b" THEN KeysOf(s, i + 1, AddKey(acc, cur \o "a"), "", TRUE)
+       ELSE IF a \in NameAtoms THEN KeysOf(s, i + 1, acc, cur \o a, FALSE)
+       ELSE KeysOf(s, i + 1, AddKey(acc, cur), "", FALSE)
 \* check_for_attributes + parse_attrs for a frame whose children are one
 \* string; mixed children are left alone (approximation, see notes/C01.md)
 TakeAttrs(f) ==
   IF Len(f.children) = 1 /\ IsStr(f.children[1])
-  THEN [f EXCEPT !.attrs = KeysOf(f.children[1].s, 1, f.attrs), !.children = <<>>]
+  THEN [f EXCEPT !.attrs = KeysOf(f.children[1].s, 1, f.attrs, "", FALSE), !.children = <<>>]
   ELSE f
 TableCheckAttrs(st) ==
   IF Top(st).kind = "TABLE" THEN SetTop(st, TakeAttrs(Top(st))) ELSE st
@@ -400,6 +406,12 @@ TableStartFn(st) ==
   ELSE IF ~(st.bol \/ st.wsp) THEN VbarFn(TextFn(st, <<"{">>))
   ELSE Push(CloseBeglineLists(st), "TABLE", <<>>)
 
+\* "{||" : table start + "|", or "{" + "||"
+MistokenizedStartFn(st) ==
+  IF st.pre THEN TextFn(st, <<"{", "|", "|">>)
+  ELSE IF ~(st.bol \/ st.wsp) THEN DoubleVbarFn(TextFn(st, <<"{">>))
+  ELSE VbarFn(TableStartFn(st))
+
 RECURSIVE ContainsKind(_, _)
 ContainsKindIn(lst, kind) == \E i \in 1..Len(lst) : ~IsStr(lst[i]) /\ (lst[i].kind = kind \/ ContainsKind(lst[i], kind))
 ContainsKind(n, kind) == ContainsKindIn(n.children, kind) \/ \E k \in 1..Len(n.largs) : ContainsKindIn(n.largs[k], kind)
@@ -429,7 +441,6 @@ TableEndFn(st0) ==
        ELSE Pop(PopUntil(st1, {"TABLE"}))
 
 (* ----------------------------------------------------------------- tag_fn *)
-TagAtom(name, close) == IF close THEN "</" \o name \o ">" ELSE "<" \o name \o ">"
 HaveTag(st, name) == \E i \in 1..Len(st.stack) : st.stack[i].kind = "HTML" /\ st.stack[i].sarg = <<name>>
 \* auto-close HTML parents that may not contain this tag
 RECURSIVE CloseParents(_, _)
@@ -438,14 +449,14 @@ CloseParents(st, name) ==
   IF st.stuck \/ f.kind # "HTML" THEN st
   ELSE IF f.sarg[1] \in PermittedParents(name) THEN st
   ELSE CloseParents(Pop(st), name)
-TagStartFn(st0, name, attrs, alsoEnd) ==
+TagStartFn(st0, name, attrs, alsoEnd, txt) ==
   LET st1 == CloseBeglineLists(st0) IN
   IF st1.stuck THEN st1
-  ELSE IF st1.pre THEN TextFn(st1, <<TagAtom(name, FALSE)>>)
+  ELSE IF st1.pre THEN TextFn(st1, <<txt>>)
   ELSE IF name = "pre"
   THEN IF alsoEnd THEN Pop(PushA(st1, "PRE", <<>>, attrs))
        ELSE [PushA(st1, "PRE", <<>>, attrs) EXCEPT !.pre = TRUE]
-  ELSE IF name \notin ModelledTags THEN TextFn(st1, <<TagAtom(name, FALSE)>>)
+  ELSE IF name \notin ModelledTags THEN TextFn(st1, <<txt>>)
   ELSE LET st2 == PushA(CloseParents(st1, name), "HTML", <<name>>, attrs) IN
        IF st2.stuck THEN st2
        ELSE IF NoEndTag(name) \/ alsoEnd THEN Pop(st2) ELSE st2
@@ -463,16 +474,16 @@ CloseToTag(st, name) ==
   IF st.stuck THEN st
   ELSE IF f.kind = "HTML" /\ f.sarg = <<name>> THEN Pop(st)
   ELSE CloseToTag(Pop(st), name)
-TagEndFn(st0, name) ==
+TagEndFn(st0, name, txt) ==
   LET st1 == IF EndTagCloses(st0.stack, Len(st0.stack), name) THEN CloseBeglineLists(st0) ELSE st0 IN
   IF st1.stuck THEN st1
   ELSE IF name = "pre"
   THEN LET st2 == [st1 EXCEPT !.pre = FALSE] IN
-       IF Top(st2).kind # "PRE" THEN TextFn(st2, <<TagAtom(name, TRUE)>>) ELSE Pop(st2)
-  ELSE IF st1.pre THEN TextFn(st1, <<TagAtom(name, TRUE)>>)
+       IF Top(st2).kind # "PRE" THEN TextFn(st2, <<txt>>) ELSE Pop(st2)
+  ELSE IF st1.pre THEN TextFn(st1, <<txt>>)
   ELSE IF ~HaveTag(st1, name)
   THEN IF name = "br" THEN SetTop(st1, AppendNode(Top(st1), Leaf("HTML", <<name>>, <<>>)))
-       ELSE TextFn(st1, <<TagAtom(name, TRUE)>>)
+       ELSE TextFn(st1, <<txt>>)
   ELSE CloseToTag(st1, name)
 
 (* ------------------------------------------- magic_fn / magicword / url -- *)
@@ -501,6 +512,7 @@ UrlFn(st0) ==
 
 (* ------------------------------------------------------------ dispatch ---- *)
 \* tokens: [k |-> kind (, more)]; the text a token turns into when it is not special
+NewLines(tok) == IF tok.k = "NL" THEN 1 ELSE IF tok.k = "MAGIC" /\ "nl" \in DOMAIN tok THEN tok.nl ELSE 0
 TokAtoms(tok) ==
   CASE tok.k = "TXT" -> tok.a
     [] tok.k = "SP"  -> [i \in 1..tok.n |-> "SP"]
@@ -519,12 +531,13 @@ TokAtoms(tok) ==
     [] tok.k = "DVB" -> <<"|", "|">>
     [] tok.k = "EX"  -> <<"!">>
     [] tok.k = "DEX" -> <<"!", "!">>
-    [] tok.k = "TAG" -> <<TagAtom(tok.name, tok.close)>>
-    [] tok.k = "MAGIC" -> (IF tok.m = "N" THEN <<"nowiki">> ELSE <<"magic" \o tok.m>>)
+    [] tok.k = "TAG" -> <<tok.txt>>
+    [] tok.k = "MTS" -> <<"{", "|", "|">>
+    [] tok.k = "MAGIC" -> (IF tok.m = "N" THEN <<"nowiki">>
+                           ELSE IF NewLines(tok) > 0 THEN <<"magicTN">> ELSE <<"magic" \o tok.m>>)
     [] tok.k = "MW"  -> <<"__NOTOC__">>
     [] tok.k = "URL" -> <<"url">>
 
-NewLines(tok) == IF tok.k = "NL" THEN 1 ELSE IF tok.k = "MAGIC" /\ "nl" \in DOMAIN tok THEN tok.nl ELSE 0
 Handle(st, tok) ==
   IF Top(st).kind = "PRE" /\ ~(tok.k = "TAG" /\ tok.close /\ tok.name = "pre")
   THEN TextFn(st, TokAtoms(tok))        \* process_text: inside <pre> everything is text
@@ -543,8 +556,9 @@ Handle(st, tok) ==
          [] tok.k = "DVB" -> DoubleVbarFn(st)
          [] tok.k = "EX"  -> TableHdrCellFn(st, <<"!">>)
          [] tok.k = "DEX" -> TableHdrCellFn(st, <<"!", "!">>)
-         [] tok.k = "TAG" -> (IF tok.close THEN TagEndFn(st, tok.name)
-                              ELSE TagStartFn(st, tok.name, tok.attrs, tok.self))
+         [] tok.k = "TAG" -> (IF tok.close THEN TagEndFn(st, tok.name, tok.txt)
+                              ELSE TagStartFn(st, tok.name, tok.attrs, tok.self, tok.txt))
+         [] tok.k = "MTS" -> MistokenizedStartFn(st)
          [] tok.k = "MAGIC" -> MagicFn(st, tok.m, NewLines(tok))
          [] tok.k = "MW"  -> MagicWordFn(st)
          [] tok.k = "URL" -> UrlFn(st)
@@ -585,32 +599,25 @@ QLen(c) == CASE c = "Q2" -> 2 [] c = "Q3" -> 3 [] c = "Q5" -> 5 [] OTHER -> 0
 FixedTok(c) ==
   CASE c = "W"     -> [k |-> "TXT", a |-> <<"w">>]
     [] c = "ATTR"  -> [k |-> "TXT", a |-> <<"a=b">>]
-    [] c = "TS"    -> [k |-> "TS"]
-    [] c = "TE"    -> [k |-> "TE"]
-    [] c = "TR"    -> [k |-> "TR"]
-    [] c = "TC"    -> [k |-> "TC"]
-    [] c = "VB"    -> [k |-> "VB"]
-    [] c = "DVB"   -> [k |-> "DVB"]
-    [] c = "DEX"   -> [k |-> "DEX"]
     [] c = ":"     -> [k |-> "LP", p |-> <<":">>]
-    [] c = "SPAN"  -> [k |-> "TAG", name |-> "span", close |-> FALSE, self |-> FALSE, attrs |-> <<>>]
-    [] c = "SPANA" -> [k |-> "TAG", name |-> "span", close |-> FALSE, self |-> FALSE, attrs |-> <<"class">>]
-    [] c = "ESPAN" -> [k |-> "TAG", name |-> "span", close |-> TRUE, self |-> FALSE, attrs |-> <<>>]
-    [] c = "DIV"   -> [k |-> "TAG", name |-> "div", close |-> FALSE, self |-> FALSE, attrs |-> <<>>]
-    [] c = "EDIV"  -> [k |-> "TAG", name |-> "div", close |-> TRUE, self |-> FALSE, attrs |-> <<>>]
-    [] c = "BR"    -> [k |-> "TAG", name |-> "br", close |-> FALSE, self |-> FALSE, attrs |-> <<>>]
-    [] c = "EBR"   -> [k |-> "TAG", name |-> "br", close |-> TRUE, self |-> FALSE, attrs |-> <<>>]
-    [] c = "SPANS" -> [k |-> "TAG", name |-> "span", close |-> FALSE, self |-> TRUE, attrs |-> <<>>]
-    [] c = "REF"   -> [k |-> "TAG", name |-> "ref", close |-> FALSE, self |-> FALSE, attrs |-> <<>>]
-    [] c = "EREF"  -> [k |-> "TAG", name |-> "ref", close |-> TRUE, self |-> FALSE, attrs |-> <<>>]
-    [] c = "UL"    -> [k |-> "TAG", name |-> "ul", close |-> FALSE, self |-> FALSE, attrs |-> <<>>]
-    [] c = "EUL"   -> [k |-> "TAG", name |-> "ul", close |-> TRUE, self |-> FALSE, attrs |-> <<>>]
-    [] c = "LI"    -> [k |-> "TAG", name |-> "li", close |-> FALSE, self |-> FALSE, attrs |-> <<>>]
-    [] c = "ELI"   -> [k |-> "TAG", name |-> "li", close |-> TRUE, self |-> FALSE, attrs |-> <<>>]
-    [] c = "PRE"   -> [k |-> "TAG", name |-> "pre", close |-> FALSE, self |-> FALSE, attrs |-> <<>>]
-    [] c = "EPRE"  -> [k |-> "TAG", name |-> "pre", close |-> TRUE, self |-> FALSE, attrs |-> <<>>]
-    [] c = "UNK"   -> [k |-> "TAG", name |-> "foo", close |-> FALSE, self |-> FALSE, attrs |-> <<>>]
-    [] c = "EUNK"  -> [k |-> "TAG", name |-> "foo", close |-> TRUE, self |-> FALSE, attrs |-> <<>>]
+    [] c = "SPAN"  -> [k |-> "TAG", txt |-> "<span>", name |-> "span", close |-> FALSE, self |-> FALSE, attrs |-> <<>>]
+    [] c = "SPANA" -> [k |-> "TAG", txt |-> "<span class=\"c\">", name |-> "span", close |-> FALSE, self |-> FALSE, attrs |-> <<"class">>]
+    [] c = "ESPAN" -> [k |-> "TAG", txt |-> "</span>", name |-> "span", close |-> TRUE, self |-> FALSE, attrs |-> <<>>]
+    [] c = "DIV"   -> [k |-> "TAG", txt |-> "<div>", name |-> "div", close |-> FALSE, self |-> FALSE, attrs |-> <<>>]
+    [] c = "EDIV"  -> [k |-> "TAG", txt |-> "</div>", name |-> "div", close |-> TRUE, self |-> FALSE, attrs |-> <<>>]
+    [] c = "BR"    -> [k |-> "TAG", txt |-> "<br>", name |-> "br", close |-> FALSE, self |-> FALSE, attrs |-> <<>>]
+    [] c = "EBR"   -> [k |-> "TAG", txt |-> "</br>", name |-> "br", close |-> TRUE, self |-> FALSE, attrs |-> <<>>]
+    [] c = "SPANS" -> [k |-> "TAG", txt |-> "<span/>", name |-> "span", close |-> FALSE, self |-> TRUE, attrs |-> <<>>]
+    [] c = "REF"   -> [k |-> "TAG", txt |-> "<ref>", name |-> "ref", close |-> FALSE, self |-> FALSE, attrs |-> <<>>]
+    [] c = "EREF"  -> [k |-> "TAG", txt |-> "</ref>", name |-> "ref", close |-> TRUE, self |-> FALSE, attrs |-> <<>>]
+    [] c = "UL"    -> [k |-> "TAG", txt |-> "<ul>", name |-> "ul", close |-> FALSE, self |-> FALSE, attrs |-> <<>>]
+    [] c = "EUL"   -> [k |-> "TAG", txt |-> "</ul>", name |-> "ul", close |-> TRUE, self |-> FALSE, attrs |-> <<>>]
+    [] c = "LI"    -> [k |-> "TAG", txt |-> "<li>", name |-> "li", close |-> FALSE, self |-> FALSE, attrs |-> <<>>]
+    [] c = "ELI"   -> [k |-> "TAG", txt |-> "</li>", name |-> "li", close |-> TRUE, self |-> FALSE, attrs |-> <<>>]
+    [] c = "PRE"   -> [k |-> "TAG", txt |-> "<pre>", name |-> "pre", close |-> FALSE, self |-> FALSE, attrs |-> <<>>]
+    [] c = "EPRE"  -> [k |-> "TAG", txt |-> "</pre>", name |-> "pre", close |-> TRUE, self |-> FALSE, attrs |-> <<>>]
+    [] c = "UNK"   -> [k |-> "TAG", txt |-> "<foo>", name |-> "foo", close |-> FALSE, self |-> FALSE, attrs |-> <<>>]
+    [] c = "EUNK"  -> [k |-> "TAG", txt |-> "</foo>", name |-> "foo", close |-> TRUE, self |-> FALSE, attrs |-> <<>>]
     [] c = "MT"    -> [k |-> "MAGIC", m |-> "T"]
     [] c = "MTN"   -> [k |-> "MAGIC", m |-> "T", nl |-> 1]      \* a template call with a newline inside
     [] c = "MA"    -> [k |-> "MAGIC", m |-> "A"]
@@ -620,19 +627,35 @@ FixedTok(c) ==
     [] c = "FIL"   -> [k |-> "MAGIC", m |-> "F"]
     [] c = "MW"    -> [k |-> "MW"]
     [] c = "URL"   -> [k |-> "URL"]
-\* what a line-start-only chunk is in the middle of a line: plain text
-MidText(c) ==
-  CASE c \in {"*", "#", ";"} -> <<c>>
-    [] c = "HR" -> <<"----">>
-    [] c = "EX" -> <<"!">>
-    [] EqLen(c) > 0 -> EqAtoms(EqLen(c))
-
 IsQ(c) == QLen(c) > 0
-\* length of the run of chunks satisfying P starting at i
+(* A line is first expanded into items: the punctuation chunks become their    *)
+(* characters ("{", "|", "}", "+", "-", "!", " "), adjacent "=" chunks merge,  *)
+(* every other chunk is one opaque item.  The token regular expression is then *)
+(* applied to the items in the order of token_list:                            *)
+(*   |}  {||  {|  |+  |-  !!  ^[ \t]*!  ^|  ||  |  ^----+  ^[*:;#]+  [ \t]+  :  *)
+PunctChars(c) ==
+  CASE c = "SP" -> <<" ">>
+    [] c = "TS" -> <<"{", "|">>   [] c = "TE" -> <<"|", "}">>
+    [] c = "TR" -> <<"|", "-">>   [] c = "TC" -> <<"|", "+">>
+    [] c = "VB" -> <<"|">>        [] c = "DVB" -> <<"|", "|">>
+    [] c = "EX" -> <<"!">>        [] c = "DEX" -> <<"!", "!">>
+    [] c = "HR" -> <<"-", "-", "-", "-">>
+    [] OTHER -> <<c>>
+\* runs of more than six "=" never delimit a heading in the modelled universes
+EqNames == <<"EQ1", "EQ2", "EQ3", "EQ4", "EQ5", "EQ6", "EQ7", "EQ8", "EQ9", "EQ10", "EQ11", "EQ12", "EQ13", "EQ14", "EQ15">>
+EqName(n) == EqNames[n]
+EqTotal(c) == IF \E n \in 1..15 : EqNames[n] = c THEN CHOOSE n \in 1..15 : EqNames[n] = c ELSE 0
+RECURSIVE Items(_, _, _)
+Items(line, i, acc) ==
+  IF i > Len(line) THEN acc
+  ELSE IF EqLen(line[i]) > 0 /\ acc # <<>> /\ EqTotal(Last(acc)) > 0
+  THEN Items(line, i + 1, Append(DropLast(acc), EqName(EqTotal(Last(acc)) + EqLen(line[i]))))
+  ELSE Items(line, i + 1, acc \o PunctChars(line[i]))
+
 RECURSIVE RunEndQ(_, _)
 RunEndQ(line, i) == IF i <= Len(line) /\ IsQ(line[i]) THEN RunEndQ(line, i + 1) ELSE i
-RECURSIVE RunEndSP(_, _)
-RunEndSP(line, i) == IF i <= Len(line) /\ line[i] = "SP" THEN RunEndSP(line, i + 1) ELSE i
+RECURSIVE RunEndC(_, _, _)
+RunEndC(line, i, ch) == IF i <= Len(line) /\ line[i] = ch THEN RunEndC(line, i + 1, ch) ELSE i
 RECURSIVE RunEndMarker(_, _)
 RunEndMarker(line, i) == IF i <= Len(line) /\ line[i] \in MarkerChunks THEN RunEndMarker(line, i + 1) ELSE i
 RECURSIVE SumQ(_, _, _)
@@ -644,7 +667,8 @@ BoldFollows(line, i) ==
   ELSE IF IsQ(line[i])
        THEN LET j == RunEndQ(line, i) IN SumQ(line, i, j) >= 3 \/ BoldFollows(line, j)
        ELSE BoldFollows(line, i + 1)
-Apos(n) == IF n > 0 THEN << [k |-> "TXT", a |-> [i \in 1..n |-> "'"]] >> ELSE <<>>
+\* (q marks text that token_iter yields separately: it is not merged with its neighbours)
+Apos(n) == IF n > 0 THEN << [k |-> "TXT", a |-> [i \in 1..n |-> "'"], q |-> TRUE] >> ELSE <<>>
 IT == [k |-> "IT"]
 BO == [k |-> "BO"]
 \* tokens for an apostrophe run of length n in state s (0 none, 1 italic, 2 bold, 3 both)
@@ -666,60 +690,96 @@ QuoteToks(n, s, follows) ==
          [] s = 0 -> [t |-> <<IT>>, s |-> 1]
 
 IsMarker(c) == c \in MarkerChunks
-AllSP(line) == \A i \in 1..Len(line) : line[i] = "SP"
+AllSP(line) == \A i \in 1..Len(line) : line[i] = " "
+Txt(atoms) == [k |-> "TXT", a |-> atoms]
+At(line, i) == IF i <= Len(line) THEN line[i] ELSE "END"
 
-\* tokens of the rest of a non-heading line from chunk i on; first = still in
+\* tokens of the rest of a non-heading line from item i on; first = still in
 \* the first apostrophe-free part (where ^-anchored tokens can match at i = 1)
 RECURSIVE LineToks(_, _, _, _)
 LineToks(line, i, s, first) ==
   IF i > Len(line) THEN <<>>
-  ELSE LET c == line[i] IN
+  ELSE LET c == line[i]
+           n1 == At(line, i + 1)
+           n2 == At(line, i + 2)
+           bol == (i = 1 /\ first)
+           Go(toks, j) == toks \o LineToks(line, j, s, first)
+       IN
     IF IsQ(c)
     THEN LET j == RunEndQ(line, i)
              q == QuoteToks(SumQ(line, i, j), s, BoldFollows(line, j))
          IN q.t \o LineToks(line, j, q.s, FALSE)
-    ELSE IF c = "SP"
-    THEN LET j == RunEndSP(line, i) IN
+    ELSE IF c = "|"
+    THEN IF n1 = "}" THEN Go(<<[k |-> "TE"]>>, i + 2)
+         ELSE IF n1 = "+" THEN Go(<<[k |-> "TC"]>>, i + 2)
+         ELSE IF n1 = "-" THEN Go(<<[k |-> "TR"]>>, i + 2)
+         ELSE IF bol THEN Go(<<[k |-> "VB"]>>, i + 1)                 \* ^\| comes before \|\|
+         ELSE IF n1 = "|" THEN Go(<<[k |-> "DVB"]>>, i + 2)
+         ELSE Go(<<[k |-> "VB"]>>, i + 1)
+    ELSE IF c = "{"
+    THEN IF n1 = "|" /\ n2 = "|" THEN Go(<<[k |-> "MTS"]>>, i + 3)
+         ELSE IF n1 = "|" THEN Go(<<[k |-> "TS"]>>, i + 2)
+         ELSE Go(<<Txt(<<"{">>)>>, i + 1)
+    ELSE IF c = "!"
+    THEN IF n1 = "!" THEN Go(<<[k |-> "DEX"]>>, i + 2)
+         ELSE IF bol THEN Go(<<[k |-> "EX"]>>, i + 1)
+         ELSE Go(<<Txt(<<"!">>)>>, i + 1)
+    ELSE IF c = " "
+    THEN LET j == RunEndC(line, i, " ") IN
          \* "^[ \t]*!" : leading blanks directly before ! at the line start belong to the token
-         IF i = 1 /\ first /\ j <= Len(line) /\ line[j] = "EX"
-         THEN <<[k |-> "EX"]>> \o LineToks(line, j + 1, s, first)
-         ELSE <<[k |-> "SP", n |-> j - i]>> \o LineToks(line, j, s, first)
-    ELSE IF i = 1 /\ first /\ IsMarker(c)
-    THEN LET j == RunEndMarker(line, 1) IN
-         <<[k |-> "LP", p |-> SubSeq(line, 1, j - 1)]>> \o LineToks(line, j, s, first)
-    ELSE IF i = 1 /\ first /\ c = "HR" THEN <<[k |-> "HR"]>> \o LineToks(line, 2, s, first)
-    ELSE IF i = 1 /\ first /\ c = "EX" THEN <<[k |-> "EX"]>> \o LineToks(line, 2, s, first)
-    ELSE IF c \in {"*", "#", ";", "HR", "EX"} \/ EqLen(c) > 0
-    THEN <<[k |-> "TXT", a |-> MidText(c)]>> \o LineToks(line, i + 1, s, first)
-    ELSE <<FixedTok(c)>> \o LineToks(line, i + 1, s, first)
+         IF bol /\ At(line, j) = "!" THEN Go(<<[k |-> "EX"]>>, j + 1)
+         ELSE Go(<<[k |-> "SP", n |-> j - i]>>, j)
+    ELSE IF c = "-"
+    THEN LET j == RunEndC(line, i, "-") IN
+         IF bol /\ j - i >= 4 THEN Go(<<[k |-> "HR"]>>, j)             \* ^----+
+         ELSE Go(<<Txt([x \in 1..(j - i) |-> "-"])>>, j)
+    ELSE IF c \in {"}", "+"} THEN Go(<<Txt(<<c>>)>>, i + 1)
+    ELSE IF bol /\ IsMarker(c)
+    THEN LET j == RunEndMarker(line, 1) IN Go(<<[k |-> "LP", p |-> SubSeq(line, 1, j - 1)]>>, j)
+    ELSE IF c \in {"*", "#", ";"} THEN Go(<<Txt(<<c>>)>>, i + 1)
+    ELSE IF EqTotal(c) > 0 THEN Go(<<Txt(EqAtoms(EqTotal(c)))>>, i + 1)
+    ELSE Go(<<FixedTok(c)>>, i + 1)
+
+\* text between two tokens is one text token
+RECURSIVE MergeText(_, _)
+MergeText(toks, acc) ==
+  IF toks = <<>> THEN acc
+  ELSE LET t == toks[1] IN
+       IF acc # <<>> /\ t.k = "TXT" /\ Last(acc).k = "TXT" /\ "q" \notin DOMAIN t /\ "q" \notin DOMAIN Last(acc)
+       THEN MergeText(Tail(toks), Append(DropLast(acc), Txt(Last(acc).a \o t.a)))
+       ELSE MergeText(Tail(toks), Append(acc, t))
 
 \* header_re: ^(={1,6})\s*(([^=]|=[^=])+?)\s*(={1,6})\s*$
 RECURSIVE LastNonSP(_, _)
-LastNonSP(line, i) == IF i = 0 THEN 0 ELSE IF line[i] # "SP" THEN i ELSE LastNonSP(line, i - 1)
+LastNonSP(line, i) == IF i = 0 THEN 0 ELSE IF line[i] # " " THEN i ELSE LastNonSP(line, i - 1)
 RECURSIVE Strip(_)
 Strip(seq) ==
   IF seq = <<>> THEN seq
-  ELSE IF seq[1] = "SP" THEN Strip(Tail(seq))
-  ELSE IF Last(seq) = "SP" THEN Strip(DropLast(seq))
+  ELSE IF seq[1] = " " THEN Strip(Tail(seq))
+  ELSE IF Last(seq) = " " THEN Strip(DropLast(seq))
   ELSE seq
 IsHeading(line) ==
   LET j == LastNonSP(line, Len(line)) IN
   /\ Len(line) >= 3 /\ EqLen(line[1]) > 0 /\ j >= 3 /\ EqLen(line[j]) > 0
-  /\ \A m \in 2..(j - 1) : EqLen(line[m]) = 0
+  /\ \A m \in 2..(j - 1) : EqTotal(line[m]) = 0
 HeadingToks(line) ==
   LET j == LastNonSP(line, Len(line))
       a == EqLen(line[1])
       b == EqLen(line[j])
       l == IF a < b THEN a ELSE b
-      mid == Strip(SubSeq(line, 2, j - 1))
-      pre == IF a > b THEN <<[k |-> "TXT", a |-> EqAtoms(a - b)]>> ELSE <<>>
-      post == IF b > a THEN <<[k |-> "TXT", a |-> EqAtoms(b - a)]>> ELSE <<>>
-  IN <<[k |-> "HS", l |-> l]>> \o pre \o (IF AllSP(mid) THEN <<>> ELSE LineToks(mid, 1, 0, a <= b)) \o post
+      raw == SubSeq(line, 2, j - 1)
+      \* the title group needs one character: of an all-blank middle it keeps the last blank
+      mid == IF AllSP(raw) THEN <<" ">> ELSE Strip(raw)
+      \* surplus "=" of the longer delimiter belong to the title
+      title == (IF a > b THEN <<EqName(a - b)>> ELSE <<>>) \o mid \o (IF b > a THEN <<EqName(b - a)>> ELSE <<>>)
+  IN <<[k |-> "HS", l |-> l]>>
+     \o (IF AllSP(title) THEN <<>> ELSE MergeText(LineToks(title, 1, 0, TRUE), <<>>))   \* token_iter(mid)
      \o <<[k |-> "HE", l |-> l]>>
-LineTokens(line) ==
+LineTokens(chunks) ==
+  LET line == Items(chunks, 1, <<>>) IN
   IF AllSP(line) THEN <<>>                   \* whitespace-only lines are skipped
   ELSE IF IsHeading(line) THEN HeadingToks(line)
-  ELSE LineToks(line, 1, 0, TRUE)
+  ELSE MergeText(LineToks(line, 1, 0, TRUE), <<>>)
 
 RECURSIVE Tokenize(_, _, _)
 \* doc from chunk i on; cur = chunks of the current line so far
